@@ -3,5 +3,8 @@ CONSTANTS EB = 3
 MB = 6
 Reduced = {2, 3, 4}
 CarryHandled = TRUE
+DB = 2
+SpanAfterRounding = TRUE
 INVARIANT Contract
+INVARIANT ArrayContract
 CHECK_DEADLOCK FALSE
